@@ -337,9 +337,9 @@ def free_running(task):
         def peer_thread(peer, rcpt, data, delay):
             for i in range(len(data)):
                 _time.sleep(delay)
-                with lock:
+                with lock:  # recording and handing over are one step: the recorded order IS the arrival order
                     delivered[peer] = delivered.get(peer, data[:0]) + data[i:i + 1]
-                io.parties[rcpt].receive(data[i:i + 1], peer)
+                    io.parties[rcpt].receive(data[i:i + 1], peer)
 
         for k, (peer, rcpt, data) in enumerate(script.get(text, [])):
             th = threading.Thread(target=peer_thread, args=(peer, rcpt, data, 0.002 * (1 + (seed + k) % 3)), daemon=True)
@@ -370,10 +370,19 @@ def run(ctx: Ctx) -> None:
     agg = explore(ctx, bound, cap=2500 if ctx.quick else 60000)
     free_tasks = [(s, p, seed) for s in SCENARIOS for p, v in SCENARIOS[s]["scripts"].items() if v[2] == "complete" for seed in range(2 if ctx.quick else 6)]
     free = pmap_tagged(free_running, free_tasks, chunk=1)
+    # the free-running pass uses real threads and real time: whether a valid peer is fast enough for the run to
+    # complete depends on machine load, so only the safety oracles are judged here (completion is decided by
+    # the controlled-scheduler exploration above, where time is virtual)
+    liveness = {"valid_interaction_not_completed", "no_result_and_no_error", "valid_interaction_raises"}
+    free_incomplete = 0
     for r in free:
         for v in r["viol"]:
+            if v["kind"] in liveness:
+                free_incomplete += 1
+                continue
             v["free_running"] = True
             ctx.violation(v)
+    agg["free_running_runs_cut_short_by_real_time"] = free_incomplete
     agg["free_running_executions"] = len(free)
     ctx.log(str({k: v for k, v in agg.items() if k not in ("samples", "points_default")}))
     ctx.coverage.update(
